@@ -740,15 +740,21 @@ def ladder_findings(seed, full=False, max_findings=4):
         if rng.random() < 0.5 and len(betas) > 1:
             betas[-1] = 0.0
         given = list(betas)
-        rng.shuffle(given)
+        order = rng.choice(['descending', 'ascending', 'shuffled'])
+        if order == 'ascending':
+            given = given[::-1]
+        elif order == 'shuffled':
+            rng.shuffle(given)
+        if rng.random() < 0.5:
+            given = numpy.array(given)
         dyn = rng.random() < 0.6 and len(betas) >= 3 and all(b > 0 for b in betas[:-1])
         tmax_prior = rng.random() < 0.6
         ann = DynamicalAnnealer(tau=rng.choice([20, 50, 1000]), nu=rng.choice([2, 4, 10]), Tmax_prior=tmax_prior) \
             if dyn else None
         s = rng.choice([1, 2, 3])
-        cfg = {'given': given, 'dynamic': dyn, 'Tmax_prior': tmax_prior, 'swap_interval': s}
+        cfg = {'given': [float(g) for g in given], 'given_type': type(given).__name__, 'dynamic': dyn, 'Tmax_prior': tmax_prior, 'swap_interval': s}
         try:
-            smp = ParallelTemperedSampler(['x'], M(), rng.choice([1, 2]), numpy.array(given), swap_interval=s,
+            smp = ParallelTemperedSampler(['x'], M(), rng.choice([1, 2, 3]), given, swap_interval=s,
                                           proposals=[Normal(['x'], cov=[0.5])], adaptive_annealer=ann,
                                           seed=rng.randrange(1 << 20))
         except Exception as e:
@@ -758,11 +764,11 @@ def ladder_findings(seed, full=False, max_findings=4):
         smp.start_position = {'x': numpy.array([[rng.uniform(-1, 1) for _ in smp.chains] for _ in range(nt)])}
         first = [numpy.array(ch.betas, dtype=float).copy() for ch in smp.chains]
         for ch, f in zip(smp.chains, first):
-            want = sorted(given, reverse=True)
+            want = sorted([float(g) for g in given], reverse=True)
             if dyn and tmax_prior:
                 want = want[:-1] + [0.0]
             if list(f) != want:
-                bad('not-sorted', 'betas given as %s are held as %s' % (given, list(f)), cfg)
+                bad('not-sorted', 'betas given as %s are held as %s' % (list(given), list(f)), cfg)
         for it in range(1, (60 if full else 25) + 1):
             smp.run(1)
             rep = smp.betas
